@@ -5,6 +5,7 @@ package fees
 
 import (
 	"encoding/binary"
+	"math/big"
 	"sync"
 
 	"github.com/ava-labs/avalanchego/utils/math"
@@ -223,13 +224,7 @@ func computeNextPriceWindow(
 	nextPrice := previousPrice
 	if total > target {
 		// If the parent block used more units than its target, the baseFee should increase.
-		delta := total - target
-		x := previousPrice * delta
-		y := x / target
-		baseDelta := y / changeDenom
-		if baseDelta < 1 {
-			baseDelta = 1
-		}
+		baseDelta := priceDelta(previousPrice, total-target, target, changeDenom)
 		n, over := math.Add(nextPrice, baseDelta)
 		if over != nil {
 			nextPrice = consts.MaxUint64
@@ -238,13 +233,7 @@ func computeNextPriceWindow(
 		}
 	} else if total < target {
 		// Otherwise if the parent block used less units than its target, the baseFee should decrease.
-		delta := target - total
-		x := previousPrice * delta
-		y := x / target
-		baseDelta := y / changeDenom
-		if baseDelta < 1 {
-			baseDelta = 1
-		}
+		baseDelta := priceDelta(previousPrice, target-total, target, changeDenom)
 
 		// If [roll] is greater than [rollupWindow], apply the state transition to the base fee to account
 		// for the interval during which no blocks were produced.
@@ -252,7 +241,11 @@ func computeNextPriceWindow(
 		// that has elapsed between the parent and this block.
 		if since > window.WindowSize {
 			// Note: roll/rollupWindow must be greater than 1 since we've checked that roll > rollupWindow
-			baseDelta *= since / window.WindowSize
+			scaled, over := math.Mul(baseDelta, since/window.WindowSize)
+			if over != nil {
+				scaled = consts.MaxUint64
+			}
+			baseDelta = scaled
 		}
 		n, under := math.Sub(nextPrice, baseDelta)
 		if under != nil {
@@ -265,6 +258,25 @@ func computeNextPriceWindow(
 		nextPrice = minPrice
 	}
 	return nextPrice, newRollupWindow
+}
+
+// priceDelta returns the proportional price change
+// max(1, floor(floor(price*excess/target)/changeDenom)), computed without
+// intermediate overflow and saturating at the maximum uint64 value.
+//
+// Invariant: [target] and [changeDenom] are non-zero.
+func priceDelta(price uint64, excess uint64, target uint64, changeDenom uint64) uint64 {
+	x := new(big.Int).SetUint64(price)
+	x.Mul(x, new(big.Int).SetUint64(excess))
+	x.Div(x, new(big.Int).SetUint64(target))
+	x.Div(x, new(big.Int).SetUint64(changeDenom))
+	if !x.IsUint64() {
+		return consts.MaxUint64
+	}
+	if delta := x.Uint64(); delta >= 1 {
+		return delta
+	}
+	return 1
 }
 
 type Rules interface {
